@@ -194,7 +194,21 @@ func instantiateGenericModel(
 		clonedStruct.Name = StandardModelNameTransformer(clonedStruct.Name, rawParamNames)
 	}
 
-	for fieldIdx, field := range rawStruct.Fields {
+	// The reduced struct holds only the fields encoding/json emits: walk the two lists in step
+	fieldIdx := -1
+	for _, field := range rawStruct.Fields {
+		if !field.IsJsonVisible() {
+			continue
+		}
+		fieldIdx++
+		if fieldIdx >= len(clonedStruct.Fields) {
+			return clonedStruct, fmt.Errorf(
+				"field '%s' of generic struct '%s' has no counterpart in the reduced struct",
+				field.Name,
+				rawStruct.Name,
+			)
+		}
+
 		// Check if this is a generic field. A bit of an ugly heuristic.
 		// Will need to re-work generic parameters later on.
 		if field.Type.Root != nil && field.Type.Root.Kind() == metadata.TypeRefKindParam {
